@@ -57,6 +57,8 @@ var templates = []struct {
 	{"nested_coroutines", `local k = %d local function mk(d) return coroutine.create(function() if d > 0 then local c = mk(d - 1) while true do local ok, v = coroutine.resume(c) coroutine.yield(v) end else local n = 0 while true do n = n + 1 if n %% k == 0 then emit("nc", n) end coroutine.yield(n) end end end) end local top = mk(3) while true do coroutine.resume(top) end`},
 	{"sort_comparator_loop", `local k = %d local n = 0 while true do local t = {5, 3, 8, 1, 9, 2} table.sort(t, function(a, b) n = n + 1 if n %% k == 0 then emit("c", n) end return a < b end) end`},
 	{"gsub_callback_loop", `local k = %d local n = 0 while true do string.gsub("abcdef", "%%a", function(c) n = n + 1 if n %% k == 0 then emit("gs", n, c) end return c end) end`},
+	{"select_receive_handler_loops", `local k = %d local ch = channel.make(1) ch:send(1) channel.select({"|<-", ch, function(ok, v) local n = 0 while true do n = n + 1 if n %% k == 0 then emit("sh", n, v) end end end})`},
+	{"select_send_handler_loop", `local k = %d local n = 0 local ch = channel.make(4) while true do channel.select({"<-|", ch, n, function(v) n = n + 1 if n %% k == 0 then emit("ss", n) end end}) local ok, v = ch:receive() end`},
 	{"error_handler_chain", `local k = %d local n = 0 local function f() n = n + 1 if n %% k == 0 then emit("eh", n) end local ok = pcall(f) error("again", 0) end pcall(f) while true do pcall(f) end`},
 }
 
@@ -121,10 +123,16 @@ var bare bool        // the program's entry is the first call ever made on the s
 func exec(proto *lua.FunctionProto, o lua.Options, withCtx bool, kind int, at int64, maxSteps int64) *vmRun {
 	h := hostapi.NewHost(hostapi.Options{LuaOptions: o, Kind: kind, At: at, MaxSteps: maxSteps, WithContext: withCtx, OnThread: onThread, MainContext: mainContext, Bare: bare})
 	if !bare {
-		// math is needed by one template
+		// math and channel are needed by some templates
 		h.L.Push(h.L.NewFunction(lua.OpenMath))
 		h.L.Push(lua.LString(lua.MathLibName))
 		h.L.Call(1, 0)
+		h.L.Push(h.L.NewFunction(lua.OpenChannel))
+		h.L.Push(lua.LString(lua.ChannelLibName))
+		h.L.Call(1, 0)
+	} else {
+		lua.OpenChannel(h.L)
+		h.L.SetTop(0)
 	}
 	out := h.RunProto(proto)
 	return &vmRun{h: h, out: out}
